@@ -249,7 +249,7 @@ func runC16(c *Ctx) error {
 	maxN := 12
 	unary := []string{"HMap", "HApply", "HFilter", "HPipe", "HWaitable", "HSince", "HAbs", "HSqrt", "HSign", "HKeepPositives", "HKeepNegatives"}
 	withK0 := []string{"HSkip", "HHead", "HFirst", "HBuffered", "HChange", "HChangeRatio", "HChangePercent"} // parameter domain >= 0
-	withK1 := []string{"HLast", "HDuplicate"}                                                              // parameter domain >= 1
+	withK1 := []string{"HLast", "HDuplicate"}                                                                // parameter domain >= 1
 	withF := []string{"HMultiplyBy", "HDivideBy", "HIncrementBy", "HDecrementBy", "HCount", "HMapWithPrevious"}
 	binary := []string{"HOperate", "HAdd", "HSubtract", "HMultiply", "HDivide"}
 	reps := c.N(1, 4)
